@@ -129,7 +129,9 @@ pub(crate) struct GlobalCollect;
 impl GlobalCollect {
     pub fn start_collect(&self) -> usize {
         let collect_id = NEXT_COLLECT_ID.fetch_add(1, Ordering::Relaxed);
-        send_command(CollectCommand::StartCollect(StartCollect { collect_id }));
+        // Like commit and drop, a start must not be lost when the channel is full: without it
+        // properties and events attached to the trace's spans later on are never mounted.
+        force_send_command(CollectCommand::StartCollect(StartCollect { collect_id }));
         collect_id
     }
 
